@@ -469,7 +469,10 @@ class Average(Numeric):
       parent_decisions: List[Optional[float]]) -> float:
     del decision_point
     parent_decisions = [d for d in parent_decisions if d is not None]
-    return sum(parent_decisions) / len(parent_decisions)
+    value = sum(parent_decisions) / len(parent_decisions)
+    # A mean lies between its operands; rounding shall not push it outside
+    # (e.g. beyond the bound of the float range all parents sit on).
+    return min(max(value, min(parent_decisions)), max(parent_decisions))
 
 
 @pg.members([
@@ -511,11 +514,15 @@ class WeightedAverage(Numeric):
     del decision_point
     decision = 0.0
     denominator = 0.0
+    used = []
     for d, w in zip(parent_decisions, self._parent_weights):
       if d is not None:
         decision += w * d
         denominator += w
-    return decision / denominator
+        used.append(d)
+    # A weighted mean lies between its operands; rounding shall not push it
+    # outside.
+    return min(max(decision / denominator, min(used)), max(used))
 
 
 #
